@@ -579,6 +579,8 @@ def prt_form(sink, msgs):
 
 def judge_prt(w, out):
     m = PRT_OUT_RE.match(out)
+    if out.startswith("runaway "):
+        return "the print macro does not terminate: still calling write after 20000 calls (" + out + ")"
     if not m:
         return "unexpected output: " + out[:80]
     if m.group(1) == "panic":
@@ -778,7 +780,7 @@ def run(ctx):
             ctx.sample({"case": c, "implementation": a})
     ctx.extra["call_log_drift"] = {"lines_differing": drift, "example": drift_example}
     if drift:
-        ctx.log("NOTE: property=C15 the sizes offered to the reader / bytes carried over differ from the model on %d cases (not part of the property; results agree unless a VIOLATION is printed): %s"
+        ctx.log("NOTE: property=C15 the sizes offered to the reader or writer / bytes carried over differ from the model on %d cases (not part of the property; results agree unless a VIOLATION is printed): %s"
                 % (drift, drift_example))
     if not ok and not ctx.violations:
         ctx.violation({"kind": "proof-broken"}, {"broken": ctx.broken}, no_input=True)
